@@ -14,11 +14,14 @@ if "--jobs" in args:
     jobs = int(args[args.index("--jobs") + 1])
 if "--only" in args:
     only = args[args.index("--only") + 1].split(",")
+SUB = "seeded"
+if "--dir" in args:
+    SUB = args[args.index("--dir") + 1]   # e.g. `refactorings`: behaviour-preserving changes, every cell is expected to be silent
 man = json.load(open(os.path.join(V, "MANIFEST.json")))
 checks = [c["property_id"] for c in man["checks"]]
 if only:
     checks = [c for c in checks if c in only]
-seeds = sorted(d for d in os.listdir(os.path.join(V, "seeded")) if os.path.exists(os.path.join(V, "seeded", d, "patch.diff")))
+seeds = sorted(d for d in os.listdir(os.path.join(V, SUB)) if os.path.exists(os.path.join(V, SUB, d, "patch.diff")))
 
 
 def run_variant(name):
@@ -28,7 +31,7 @@ def run_variant(name):
     res = {}
     try:
         if name != "clean":
-            a = subprocess.run(["git", "-C", wt, "apply", os.path.join(V, "seeded", name, "patch.diff")], capture_output=True, text=True)
+            a = subprocess.run(["git", "-C", wt, "apply", os.path.join(V, SUB, name, "patch.diff")], capture_output=True, text=True)
             if a.returncode != 0:
                 return name, {"_apply": a.stderr.strip()[:200]}
         env = dict(os.environ, WF_REPO=wt, WF_EVIDENCE_DIR=os.path.join(wt, "_ev"))
@@ -47,7 +50,7 @@ def run_variant(name):
 t0 = time.time()
 with ThreadPoolExecutor(max_workers=jobs) as ex:
     results = dict(ex.map(run_variant, ["clean"] + seeds))
-json.dump(results, open(os.path.join(V, "seeded", "MATRIX.json"), "w"), indent=1)
+json.dump(results, open(os.path.join(V, SUB, "MATRIX.json"), "w"), indent=1)
 lines = ["# Seeded changes x checks", "",
          "`V` = VIOLATION reported (exit 1), `.` = silent (exit 0), `B` = BROKEN (exit 2). Row `clean` is the unchanged tree.", "",
          "| variant | " + " | ".join(checks) + " | caught by |", "|---|" + "---|" * (len(checks) + 1)]
@@ -59,6 +62,6 @@ for name in ["clean"] + seeds:
     cells = ["V" if r[c]["rc"] == 1 else ("B" if r[c]["rc"] == 2 else ".") for c in checks]
     caught = [c for c in checks if r[c]["rc"] == 1]
     lines.append(f"| {name} | " + " | ".join(cells) + " | " + ", ".join(caught) + " |")
-open(os.path.join(V, "seeded", "MATRIX.md"), "w").write("\n".join(lines) + "\n")
+open(os.path.join(V, SUB, "MATRIX.md"), "w").write("\n".join(lines) + "\n")
 print("\n".join(lines))
 print(f"wall {time.time() - t0:.0f}s")
